@@ -3,6 +3,9 @@
 import json
 SC="stateless model checking of the implementation under a controlled scheduler (iterative preemption/delay bounding)"
 CHECKS = {
+ "C16": dict(engine="vsched", technique=SC,
+   text="the real httpproxy.ServerHandle + Proceed (request/response forwarder goroutines over the real in-memory pipe) run under the controlled scheduler between a scripted client and origin; every interleaving within a delay bound is executed for each scripted exchange list and the messages parsed on both sides are compared (method, target, end-to-end fields, bodies, trailers, order, 1xx, connection endings, auth gating)",
+   note="origin attached directly to the pipe end; comparison after parsing with net/http on both sides; finite script family listed in evidence"),
  "C13": dict(engine="vsched", technique=SC,
    text="the real TCPRelay.handleConn runs over scheduler-aware in-memory connections with real protocol servers (tunnel, SOCKS5, SS2022, HTTP CONNECT, SS-none) in front, the real router and a recording outgoing client; every interleaving within a deviation bound (incl. the 250 ms initial-payload timer landing early or late) of client, relay, copy goroutine and target is executed and checked for target/payload fidelity, failure replies, mirrored half-closes and statistics",
    note="handleConn parameter widened to netio.Conn by the overlay; only listener settings the service can produce are explored"),
